@@ -10,7 +10,7 @@ structure Inv where
 def parseInv (s : String) : Option Inv :=
   match s.splitOn "=" with
   | [k, sc] =>
-    if k ∉ ["nb", "batch", "task", "done", "q"] then none else
+    if k ∉ ["nb", "batch", "task", "done", "q", "init"] then none else
     some ⟨k, if sc = "-" then [] else (sc.splitOn "+").map (·.splitOn ":")⟩
   | _ => none
 
@@ -27,7 +27,8 @@ structure S where
 
 /-- the programs: install the context, one `GetStub()` per scripted step, remove it -/
 def progOf (i : Nat) (inv : Inv) : List Act :=
-  if inv.kind = "done" then [.set (100 + i), .del]
+  if inv.kind = "init" then []        -- Init installs no transaction context
+  else if inv.kind = "done" then [.set (100 + i), .del]
   else [.set (100 + i)] ++ inv.steps.map (fun _ => .get) ++ [.del]
 
 /-- run the context-table model under the schedule the harness forced; thread `i` takes its first
@@ -55,6 +56,8 @@ def conc (s : S) (sched : List Nat) (invs : List Inv) : String :=
         let upd' := fun (st' : StubSt) => (a.1.filter (·.1 ≠ sid)) ++ [(sid, st')]
         match p.1 with
         -- the transaction the obtained context belongs to: the invocation's own, or somebody else's
+        -- the configuration the invocation loaded when it started: never another proposal's
+        | ["sym"] => (a.1, a.2 ++ ["[VT]"])
         | ["id"] => (a.1, a.2 ++ [if sid = 100 + i then "[SELF]" else "[OTHER]"])
         -- a query's context is read-only: writes through it are swallowed
         | ["put", k, v] => if kindOfStub sid = "q" then a else (upd' { writes := setKV st.writes k v }, a.2)
@@ -69,6 +72,7 @@ def conc (s : S) (sched : List Nat) (invs : List Inv) : String :=
     | none => "?"
     | some inv =>
       if inv.kind = "done" then "done-err" else
+      if inv.kind = "init" then "init" else
       let st := ((go.1.find? (·.1 = 100 + i)).map (·.2)).getD {}
       let ws := (st.writes.filter (fun kv => kv.1.startsWith "k")).map (fun kv => s!"{kv.1}={kv.2}")
       let wsSorted := ws.foldr insertSorted []
